@@ -18,7 +18,7 @@ def check_scene(case):
     import frames
     outs = []
     for thr in case["thrs"]:
-        fr, eo, go, res = frames.frame_result(case["est"], case["gt"], ego=None, task="detection", targets=case["targets"], crit=case["crit"],
+        fr, eo, go, res = frames.frame_result(case["est"], case["gt"], ego=None, task=case.get("task", "detection"), targets=case["targets"], crit=case["crit"],
                                               pass_thr=[thr] * 3, policy="DEFAULT", metrics=dict(center_distance_thresholds=[[thr] * 3], plane_distance_thresholds=[[thr] * 3]))
         pf = fr.pass_fail_result
         tp = [(id(r.estimated_object.uuid), r.estimated_object.uuid) for r in pf.tp_object_results]
@@ -91,6 +91,10 @@ def search(item, seed):
         case = ap.gen_scene(rnd)
         # thresholds as a configuration file spells them: floats and whole numbers mixed
         case["thrs"] = rnd.choice([[0.0, 0.3, 0.9, 1.7, 3.0], [0, 0.3, 1, 1.7, 2, 3.0], [0.5, 1, 2, 3]])
+        if rnd.random() < 0.35:
+            # every 3-D task is judged the same way at frame level; thresholds within [0, 1] so that a mode mix-up cannot hide behind a range assertion
+            case["task"] = rnd.choice(["tracking", "fp_validation"])
+            case["thrs"] = [0.1, 0.25, 0.4, 0.6, 0.8, 1.0]
         try:
             why = check_scene(case)
         except Exception as ex:
